@@ -29,6 +29,9 @@ type blk struct {
 	seed    []int  // name (path) of the round random seed the block carries
 	prev    string // name of the previous block
 	variant int
+	pforged bool         // the previous-block tickets attached to the block are forged
+	badsig  bool         // the generator's signature on the block is not valid
+	sent    bool         // delivered to the node at least once
 	src     *block.Block // an object of the block with its state computed (generator side / the node's own)
 }
 
@@ -52,6 +55,7 @@ type trace struct {
 	maxRound int
 	steps    int
 	lastObs  string
+	collSeen map[string]time.Time // first time a verification collector (round/seed) was seen running
 	pend     []*pending
 	hist     []func() // messages sent so far (late re-delivery)
 }
@@ -153,7 +157,7 @@ func (d *drv) newBlockName(t *trace, b *block.Block, r, gen int, seed []int, pre
 func (d *drv) startTrace(id int, r *rand.Rand) *trace {
 	mw, mc := d.mw, d.mc
 	t := &trace{id: id, base: int64(baseStep * id), r: r, blocks: map[string]*blk{}, byHash: map[string]*blk{},
-		seeds: map[int64][]int{}, seedOf: map[string]int64{}}
+		seeds: map[int64][]int{}, seedOf: map[string]int64{}, collSeen: map[string]time.Time{}}
 	d.t = t
 	t.ctx, t.done = mw.Ctx()
 	// process-level state that a previous trace may have left behind
@@ -240,6 +244,17 @@ func (d *drv) blockName(b *block.Block) string {
 		return x.name
 	}
 	return "?" + b.Hash[:8]
+}
+
+// attrs: what a block carries (facts the node cannot choose).
+func (d *drv) attrs(x *blk) rec.M {
+	ptk := []string{}
+	for _, vt := range x.src.PrevBlockVerificationTickets {
+		ptk = append(ptk, d.minerName(vt.VerifierID))
+	}
+	sort.Strings(ptk)
+	return rec.M{"b": x.name, "r": x.r, "gen": fmt.Sprintf("m%d", x.gen+1), "seed": x.seed, "prev": x.prev, "ptk": ptk,
+		"variant": x.variant, "valid": !x.badsig, "pvalid": !x.pforged}
 }
 
 // copyOf: an independent object of a block of the node (as another miner holds it after receiving it), with the
@@ -374,6 +389,7 @@ func (d *drv) project() rec.M {
 			"fin": int(mr.FinalizeState()), "coll": v.Collecting, "rtk": rtk, "to_verify": v.ToVerify})
 	}
 	blocks := []rec.M{}
+	kf := ""
 	for _, name := range append([]string{}, t.order...) {
 		x := t.blocks[name]
 		b, err := mc.GetBlock(t.ctx, x.hash)
@@ -381,20 +397,22 @@ func (d *drv) project() rec.M {
 			continue
 		}
 		tks, good := d.ticketNames(b)
+		if b.IsBlockNotarized() && good < 3 {
+			// the signature of a finding the lead may list: the block's flag was raised by the forged
+			// previous-block tickets attached to a next-round proposal that was delivered to the node
+			for _, yn := range t.order {
+				if y := t.blocks[yn]; y.pforged && y.sent && y.prev == name {
+					kf = "forged-prev-tickets"
+				}
+			}
+		}
 		blocks = append(blocks, rec.M{"b": name, "st": int(b.GetBlockState()), "tk": tks, "good": good, "notar": b.IsBlockNotarized(),
 			"rank": b.RoundRank, "computed": b.IsStateComputed()})
 	}
 	// everything the harness knows about the blocks of the trace (what a block carries does not depend on the node)
 	univ := []rec.M{}
 	for _, name := range t.order {
-		x := t.blocks[name]
-		ptk := []string{}
-		for _, vt := range x.src.PrevBlockVerificationTickets {
-			ptk = append(ptk, d.minerName(vt.VerifierID))
-		}
-		sort.Strings(ptk)
-		univ = append(univ, rec.M{"b": name, "r": x.r, "gen": fmt.Sprintf("m%d", x.gen+1), "seed": x.seed, "prev": x.prev, "ptk": ptk,
-			"variant": x.variant, "valid": true})
+		univ = append(univ, d.attrs(t.blocks[name]))
 	}
 	// the chain from the LFB back to the base block (C36: one chain)
 	lfbChain := []string{}
@@ -402,7 +420,7 @@ func (d *drv) project() rec.M {
 		lfbChain = append(lfbChain, d.blockName(b))
 	}
 	return rec.M{"ev": "Obs", "cur": d.rel(mc.GetCurrentRound()), "lfb": d.blockName(lfb), "lfb_r": d.rel(lfb.Round), "lfb_chain": lfbChain,
-		"tk": tkr, "rtc": int(mc.GetRoundTimeoutCount()), "rounds": rounds, "blocks": blocks, "univ": univ}
+		"tk": tkr, "rtc": int(mc.GetRoundTimeoutCount()), "rounds": rounds, "blocks": blocks, "univ": univ, "kf": kf}
 }
 
 // ---------------------------------------------------------------- quiescence
@@ -428,6 +446,15 @@ func (d *drv) waiting() string {
 		}
 		v := mr.VerifRTView()
 		if v.Collecting {
+			key := fmt.Sprintf("%d/%d", q, mr.GetRandomSeed())
+			seen, ok := t.collSeen[key]
+			if !ok {
+				seen = time.Now()
+				t.collSeen[key] = seen
+			}
+			if time.Since(seen) < collectSettle {
+				return "verification collector timer"
+			}
 			if v.ToVerify > 0 {
 				return "block waiting for the verification collector"
 			}
